@@ -322,11 +322,22 @@ def ruleReduce : Ex α → Option (Ex α)
 /-- Restriction of a substitution to the names a term mentions. -/
 def restrictSubs (σ : List (Name × Arg)) (ins : List Name) : List (Name × Arg) := σ.filter (fun p => p.1 ∈ ins)
 
-/-- cnf.py:551-561 `distribute_subs_contraction`. -/
+/-- cnf.py:551-561 `distribute_subs_contraction`: ONE `Subs` per term carrying ALL the bindings that term
+    mentions — the binding list `σ` is applied simultaneously (`applySubs`). -/
 def ruleSubsContr : Ex α → Option (Ex α)
   | .subs (.contr red bin vars ts) σ =>
     some (.contr red bin vars (ts.map fun t =>
       if (restrictSubs σ t.ins).isEmpty then t else .subs t (restrictSubs σ t.ins)))
+  | _ => none
+
+/-- What `distribute_subs_contraction` must NOT do: push the bindings into each term ONE AT A TIME
+    (`v = Subs(v, ((name, sub),))` in a loop).  A substitution with several bindings is simultaneous; applied
+    sequentially, a binding whose value is the key of a later binding is substituted again.  (Only used by
+    the witness theorem `subs_sequential_witness`.) -/
+def ruleSubsContrSequential : Ex α → Option (Ex α)
+  | .subs (.contr red bin vars ts) σ =>
+    some (.contr red bin vars (ts.map fun t =>
+      (restrictSubs σ t.ins).foldl (fun acc b => .subs acc [b]) t))
   | _ => none
 
 /-- cnf.py:592-599 `unary_contract`: a unary op distributes over a product-free Contraction of the
